@@ -82,8 +82,8 @@ def compute(binary, preprocessed_source):
     by_sig = {}
     for name, s in syms.items():
         t = s.get("type", "")
-        if "::" in name or not s.get("value") or "compiled" not in s.get("value", ""):
-            continue
+        if "::" in name:
+            continue        # (functions without a body, e.g. free(), count too: they are filtered by address-taken below)
         m = re.match(r"^(.*?)\s*\((.*)\)$", t)
         if not m or "(*" in m.group(1):
             continue
@@ -168,8 +168,15 @@ def compute(binary, preprocessed_source):
                 fm = re.match(r"^(.*)\(\*\)\((.*)\)$", ty)
                 if fm:
                     sig = _sig(fm.group(1), fm.group(2))
-        if sig and sig in by_sig:
-            targets = sorted(t for t in by_sig[sig] if t != fn and t in addr_taken)     # an inline wrapper never reaches itself through its own pointer
+        if sig:
+            cands = set(by_sig.get(sig, []))
+            # a function taking `void *` may legitimately be stored in a pointer whose parameter is `struct X *`
+            # (urequest_free_func is initialised with (urequest_free_func)free)
+            canon = re.sub(r"(struct|union) \w+\*", "void*", sig)
+            for osig, fl in by_sig.items():
+                if "void*" in osig and osig != sig and re.sub(r"(struct|union) \w+\*", "void*", osig) == canon:
+                    cands |= set(fl)
+            targets = sorted(t for t in cands if t != fn and t in addr_taken)     # an inline wrapper never reaches itself through its own pointer
             if targets:
                 out.append((label, targets, sig))
     return out
